@@ -393,7 +393,8 @@ CHECKS = {
          "requirements of an observed result (assembled/rejected, rings closed, >= 4 points, no repeated point, no conflict "
          "among ring segments, orientation, inner inside and attached to the innermost outer, region of the multipolygon = "
          "even-odd fill, ring segments = input segments, problem counts in area_stats and ProblemReporter). A case-builder "
-         "state machine draws catalogue rings (rect/tri/L/T/diamond/kite, dense variants, G=4/5, nested chains on G=7), damages "
+         "state machine draws catalogue rings (rect/tri/L/T/diamond/kite, dense variants, trapezoids, rectangles with subdivided "
+         "edges, G=4/5, nested chains on G=7, the scripted family 'hole over a non-rectangular island' on G=7/8), damages "
          "the segment bag, and re-draws the same bag as every possible set of ways (member order, direction, cutting, through "
          "touching points) x role patterns; TLC proves bag conservation and the A-layer's consistency theorems (ray "
          "independence, XOR of ring fills, cancellation, Judge accepts the reference answer and rejects spoiled ones, tiling "
@@ -447,7 +448,8 @@ CHECKS = {
          "(reference table as newest-first list vs ring + current_entry, inline vs any matching back reference per string, "
          "delta registers per field and member type, reset / sync / jump / unknown / single-byte data sets, o5m/o5c, "
          "bbox/timestamp, type-subset reads with undecoded skipping), PbfChoices.tla (blocks, groups, plain/dense, "
-         "granularity, lat/lon offset, date granularity with exact-representability preconditions, optional Info/DenseInfo "
+         "granularity, lat/lon offset, date granularity with exact-representability preconditions - for nodes and for the "
+         "delta-coded lat/lon arrays of ways that carry node locations -, optional Info/DenseInfo "
          "fields, string table layouts, dense key/value delimiting; labels: compression, indexdata and BlobHeader sizes "
          "127..65535, unknown fields, field order, packed/unpacked/split, padded lengths, 16 MiB / 32 MiB-1 blobs, unknown "
          "blob types), XmlChoices.tla (osm/osmChange, sections, defaults written or omitted, child order; labels: attribute "
